@@ -45,6 +45,16 @@ pub struct GenInfo {
     pub struct_nots_avoided: usize,
     /// self-reading statements that were avoided by construction (main sub)
     pub self_reads_avoided: usize,
+    /// statement-style calls of functions with output arguments
+    pub out_calls: usize,
+    /// kinds of output actuals drawn: whole variable, part select not at bit 0,
+    /// part select at bit 0, struct member, array element, concatenation piece
+    pub out_actual: [usize; 6],
+    /// output formals defined by a pure positional copy / by anything else
+    pub out_body_copy: usize,
+    pub out_body_other: usize,
+    /// dead stores inside one if arm: (module index, target, module-level reads of the dead store)
+    pub dead_stores: Vec<(usize, Place, Vec<Place>)>,
 }
 
 #[derive(Clone, Copy, PartialEq, Debug)]
@@ -83,6 +93,10 @@ struct MGen<'a, 'd> {
     in_inst: bool,
     /// set while a function body is generated for the current call site
     captured_back: bool,
+    /// next module-level leaf reads a chunk of the same or a higher level
+    /// without consuming the back-read budget (dead stores)
+    force_back: bool,
+    module_index: usize,
 }
 
 const MAXD: usize = 3;
@@ -150,7 +164,11 @@ impl MGen<'_, '_> {
 
     fn module_leaf(&mut self, w: usize, no_const: bool) -> Expr {
         let mut back = false;
-        if *self.back_left > 0 && !self.read_all && self.d.chance(if self.in_inst { 2 } else { 1 }, 5) {
+        let forced = self.force_back && !self.read_all;
+        if forced {
+            back = true;
+            self.force_back = false;
+        } else if *self.back_left > 0 && !self.read_all && self.d.chance(if self.in_inst { 2 } else { 1 }, 5) {
             back = true;
         }
         let mut rs = self.ranges(back);
@@ -158,13 +176,20 @@ impl MGen<'_, '_> {
             back = false;
             rs = self.ranges(false);
         }
+        if forced && back {
+            // not charged to the budget: a dead store adds no bit-level edge
+            *self.back_left += 1;
+            self.info.back_reads -= 0;
+        }
         if rs.is_empty() {
             // cannot happen (inputs are level 0) unless the module has no input
             return Expr::Const(w, 0);
         }
         if back {
             *self.back_left -= 1;
-            self.info.back_reads += 1;
+            if !forced {
+                self.info.back_reads += 1;
+            }
             if self.in_inst {
                 self.info.back_in_inst += 1;
             }
@@ -277,7 +302,8 @@ impl MGen<'_, '_> {
             return self.leaf(w, no_const);
         }
         // simplest first (an exhausted choice sequence yields a leaf)
-        let can_call = self.fscope.is_none() && (self.funcs.len() < 3 || self.funcs.iter().any(|f| f.ret_w == w));
+        let n_val = self.funcs.iter().filter(|f| f.ret_w > 0).count();
+        let can_call = self.fscope.is_none() && (n_val < 3 || self.funcs.iter().any(|f| f.ret_w == w));
         let weights = [
             34,                                  // 0 leaf
             if w >= 2 { 14 } else { 0 },         // 1 concat
@@ -379,10 +405,11 @@ impl MGen<'_, '_> {
 
     fn call(&mut self, w: usize, depth: usize, _no_const: bool) -> Expr {
         let reusable: Vec<usize> =
-            (0..self.funcs.len()).filter(|i| self.funcs[*i].ret_w == w && !self.func_private[*i]).collect();
-        let fi = if !reusable.is_empty() && (self.funcs.len() >= 3 || self.d.bool()) {
+            (0..self.funcs.len()).filter(|i| self.funcs[*i].ret_w == w && w > 0 && !self.func_private[*i]).collect();
+        let n_val = self.funcs.iter().filter(|f| f.ret_w > 0).count();
+        let fi = if !reusable.is_empty() && (n_val >= 3 || self.d.bool()) {
             reusable[self.d.below_usize(reusable.len())]
-        } else if self.funcs.len() < 3 {
+        } else if n_val < 3 {
             self.new_func(w)
         } else {
             return self.leaf(w, true);
@@ -463,12 +490,255 @@ impl MGen<'_, '_> {
         let private = self.captured_back;
         self.captured_back = saved_back;
         let ix = self.funcs.len();
-        self.funcs.push(Func { name: format!("f{ix}"), vars, n_formals: nf, body, ret, ret_w });
+        self.funcs.push(Func { name: format!("f{ix}"), vars, n_formals: nf, outs: vec![false; nf], body, ret, ret_w });
         self.func_private.push(private);
         ix
     }
 
     // ------------------------------------------------------- always_comb
+
+    /// A function without return value whose output formals have the widths `out_w`.
+    fn new_proc(&mut self, out_w: &[usize]) -> usize {
+        let n_in = 1 + self.d.below_usize(2);
+        let nl = self.d.below_usize(2);
+        let mut vars = Vec::new();
+        let mut assigned = Vec::new();
+        let mut outs = Vec::new();
+        for k in 0..n_in {
+            // mostly as wide as an output, so that a positional copy is possible
+            let w = if self.d.chance(2, 3) { out_w[k % out_w.len()] } else { 1 + self.d.below_usize(6) };
+            vars.push((format!("a{k}"), w));
+            assigned.push(vec![true; w]);
+            outs.push(false);
+        }
+        for (k, w) in out_w.iter().enumerate() {
+            vars.push((format!("y{k}"), *w));
+            assigned.push(vec![false; *w]);
+            outs.push(true);
+        }
+        let nf = vars.len();
+        for k in 0..nl {
+            let w = 1 + self.d.below_usize(5);
+            vars.push((format!("t{k}"), w));
+            assigned.push(vec![false; w]);
+        }
+        let saved_back = self.captured_back;
+        self.captured_back = false;
+        self.fscope = Some(FuncScope { assigned });
+        let mut body = Vec::new();
+        for l in nf..nf + nl {
+            let w = vars[l].1;
+            let e = self.expr(w, 1, false);
+            body.push(Stmt::Assign(vec![Target::Local(l, 0, w)], e));
+            self.fscope.as_mut().unwrap().assigned[l] = vec![true; w];
+        }
+        for l in n_in..nf {
+            let w = vars[l].1;
+            match self.d.weighted(&[3, 3, 2]) {
+                0 => {
+                    // positional copy: selects / concatenations of formals only
+                    let e = self.func_leaf_local(w);
+                    body.push(Stmt::Assign(vec![Target::Local(l, 0, w)], e));
+                    self.info.out_body_copy += 1;
+                }
+                1 => {
+                    let e = self.expr(w, 1, false);
+                    body.push(Stmt::Assign(vec![Target::Local(l, 0, w)], e));
+                    self.info.out_body_other += 1;
+                }
+                _ => {
+                    let c = self.expr(1, 2, true);
+                    let a = self.expr(w, 1, false);
+                    let b = self.expr(w, 1, false);
+                    body.push(Stmt::If(
+                        c,
+                        vec![Stmt::Assign(vec![Target::Local(l, 0, w)], a)],
+                        vec![Stmt::Assign(vec![Target::Local(l, 0, w)], b)],
+                    ));
+                    self.info.out_body_other += 1;
+                }
+            }
+            self.fscope.as_mut().unwrap().assigned[l] = vec![true; w];
+            if self.d.chance(1, 4) {
+                // partial re-assignment of the output formal (own bits hidden, see rhs_for)
+                let sw = 1 + self.d.below_usize(w);
+                let lo = self.d.below_usize(w - sw + 1);
+                let hide = !self.cfg.defect_selfread;
+                if hide {
+                    for b in lo..lo + sw {
+                        self.fscope.as_mut().unwrap().assigned[l][b] = false;
+                    }
+                }
+                let e = self.expr(sw, 1, false);
+                for b in lo..lo + sw {
+                    self.fscope.as_mut().unwrap().assigned[l][b] = true;
+                }
+                body.push(Stmt::Assign(vec![Target::Local(l, lo, sw)], e));
+            }
+        }
+        self.fscope = None;
+        let private = self.captured_back;
+        self.captured_back = saved_back;
+        let ix = self.funcs.len();
+        self.funcs.push(Func { name: format!("f{ix}"), vars, n_formals: nf, outs, body, ret: Expr::Const(0, 0), ret_w: 0 });
+        self.func_private.push(private);
+        ix
+    }
+
+    /// leaf over formals / locals only (no captured module signal)
+    fn func_leaf_local(&mut self, w: usize) -> Expr {
+        loop {
+            let e = self.func_leaf(w, true);
+            if !any_expr(&e, &|x| matches!(x, Expr::Ref(_))) {
+                return e;
+            }
+        }
+    }
+
+    fn note_actual(&mut self, p: &Place, in_concat: bool) {
+        let k = if in_concat {
+            5
+        } else {
+            match &self.sigs[p.sig].shape {
+                Shape::Vec(w) => {
+                    if p.lo == 0 && p.w == *w {
+                        0
+                    } else if p.lo > 0 {
+                        1
+                    } else {
+                        2
+                    }
+                }
+                Shape::Struct(_) => 3,
+                Shape::Arr { .. } => 4,
+            }
+        };
+        self.info.out_actual[k] += 1;
+    }
+
+    /// `f(ins.., outs..);` writing the given groups of places (one group per
+    /// output formal; a group of several places is a concatenation actual).
+    /// `None` if no more functions may be created.
+    fn call_stmt(&mut self, groups: &[Vec<Place>], depth: usize) -> Option<Stmt> {
+        let out_w: Vec<usize> = groups.iter().map(|g| g.iter().map(|p| p.w).sum()).collect();
+        let n_proc = self.funcs.iter().filter(|f| f.ret_w == 0).count();
+        let reusable: Vec<usize> = (0..self.funcs.len())
+            .filter(|i| {
+                let f = &self.funcs[*i];
+                f.ret_w == 0
+                    && !self.func_private[*i]
+                    && (0..f.n_formals).filter(|k| f.outs[*k]).map(|k| f.vars[k].1).collect::<Vec<_>>() == out_w
+            })
+            .collect();
+        let fi = if !reusable.is_empty() && (n_proc >= 3 || self.d.bool()) {
+            reusable[self.d.below_usize(reusable.len())]
+        } else if n_proc < 3 {
+            self.new_proc(&out_w)
+        } else {
+            return None;
+        };
+        // targets hidden while the input actuals are drawn (a re-assignment must
+        // not read the bits it writes, see rhs_for)
+        let mut hidden = Vec::new();
+        if !self.cfg.defect_selfread {
+            for g in groups {
+                for p in g {
+                    for b in 0..p.w {
+                        if self.own_assigned.remove(&(p.sig, p.lo + b)) {
+                            hidden.push((p.sig, p.lo + b));
+                        }
+                    }
+                }
+            }
+        }
+        let f = self.funcs[fi].clone();
+        let mut args = Vec::new();
+        let mut gi = 0;
+        for k in 0..f.n_formals {
+            if f.outs[k] {
+                let g = &groups[gi];
+                gi += 1;
+                for p in g {
+                    self.note_actual(p, g.len() > 1);
+                }
+                args.push(Arg::Out(g.iter().map(|p| Target::Sig(*p)).collect()));
+            } else {
+                args.push(Arg::In(self.expr(f.vars[k].1, depth + 1, false)));
+            }
+        }
+        self.own_assigned.extend(hidden);
+        self.info.out_calls += 1;
+        Some(Stmt::Call(fi, args))
+    }
+
+    /// assignment of `p` either directly or through an output-argument call
+    fn store(&mut self, p: Place, depth: usize) -> Stmt {
+        if self.d.chance(1, 4)
+            && let Some(s) = self.call_stmt(&[vec![p]], depth)
+        {
+            return s;
+        }
+        let e = self.rhs_for(p, depth);
+        Stmt::Assign(vec![Target::Sig(p)], e)
+    }
+
+    /// One if arm stores the same bits twice or more: the earlier stores are
+    /// dead and read something downstream of the final value (a forced back
+    /// read); the other arm leaves the signal as assigned before the branch or
+    /// reads it.
+    fn dead_store_arm(&mut self, c: Place, defined: &[Place]) -> Stmt {
+        let cond = self.expr(1, 1, true);
+        let p = self.sub_place(c);
+        let mut arm = Vec::new();
+        let n_dead = 1 + self.d.below_usize(2);
+        for _ in 0..n_dead {
+            // bits of p stay hidden: the dead store must not read its own target
+            let mut hidden = Vec::new();
+            for b in 0..p.w {
+                if self.own_assigned.remove(&(p.sig, p.lo + b)) {
+                    hidden.push((p.sig, p.lo + b));
+                }
+            }
+            self.force_back = true;
+            let leaf = self.module_leaf(p.w, true);
+            self.force_back = false;
+            let dead = if self.d.bool() {
+                leaf
+            } else {
+                let other = self.expr(p.w, 2, false);
+                Expr::Bit(BitOp::Xor, Box::new(leaf), Box::new(other))
+            };
+            self.own_assigned.extend(hidden);
+            let mut reads = Vec::new();
+            collect_refs(&dead, &mut reads);
+            self.info.dead_stores.push((self.module_index, p, reads));
+            arm.push(Stmt::Assign(vec![Target::Sig(p)], dead));
+        }
+        arm.push(self.store(p, 1));
+        // the other arm
+        let other: Vec<Stmt> = match self.d.weighted(&[2, 2]) {
+            0 => vec![],
+            _ => {
+                // reads the signal: some other defined place gets a value computed from p
+                let cands: Vec<Place> = defined.iter().copied().filter(|q| q.sig != p.sig || q.lo + q.w <= p.lo || p.lo + p.w <= q.lo).collect();
+                if cands.is_empty() {
+                    vec![]
+                } else {
+                    let q0 = cands[self.d.below_usize(cands.len())];
+                    let q = self.sub_place(q0);
+                    let e = if q.w <= p.w {
+                        let a = self.rhs_for(q, 2);
+                        Expr::Bit(BitOp::Xor, Box::new(a), Box::new(Expr::Ref(Place { sig: p.sig, lo: p.lo, w: q.w })))
+                    } else {
+                        let a = self.rhs_for(Place { sig: q.sig, lo: q.lo, w: q.w - p.w }, 2);
+                        Expr::Concat(vec![a, Expr::Ref(p)])
+                    };
+                    vec![Stmt::Assign(vec![Target::Sig(q)], e)]
+                }
+            }
+        };
+        Stmt::If(cond, arm, other)
+    }
 
     fn sub_place(&mut self, c: Place) -> Place {
         if c.w == 1 || self.d.chance(1, 3) {
@@ -500,6 +770,33 @@ impl MGen<'_, '_> {
             let define = !pending.is_empty() && (defined.is_empty() || extras == 0 || self.d.chance(2, 3));
             if define {
                 let c = pending.pop().unwrap();
+                if self.d.chance(1, 4) {
+                    // defined by an output-argument call: one or two outputs, or one
+                    // output whose actual is a concatenation of two chunks
+                    let mut groups = vec![vec![c]];
+                    let mut taken = vec![c];
+                    if !pending.is_empty() && self.d.chance(1, 3) {
+                        let c2 = pending.pop().unwrap();
+                        taken.push(c2);
+                        if self.d.bool() {
+                            groups[0].push(c2);
+                        } else {
+                            groups.push(vec![c2]);
+                        }
+                    }
+                    if let Some(st) = self.call_stmt(&groups, 0) {
+                        out.push(st);
+                        for t in taken {
+                            self.mark(t);
+                            defined.push(t);
+                        }
+                        continue;
+                    }
+                    // no function left: fall back to plain assignments below
+                    for t in taken.into_iter().skip(1) {
+                        pending.push(t);
+                    }
+                }
                 if !pending.is_empty() && self.d.chance(1, 6) {
                     // two chunks at once through a left-hand concatenation
                     let c2 = pending.pop().unwrap();
@@ -526,17 +823,20 @@ impl MGen<'_, '_> {
                 extras -= 1;
                 let c = defined[self.d.below_usize(defined.len())];
                 let p = self.sub_place(c);
-                match self.d.weighted(&[3, 4, 2]) {
+                match self.d.weighted(&[3, 4, 2, 3]) {
                     0 => {
-                        // plain sequential reassignment
-                        let e = self.rhs_for(p, 0);
-                        out.push(Stmt::Assign(vec![Target::Sig(p)], e));
+                        // plain sequential reassignment (directly or through a call)
+                        let st = self.store(p, 0);
+                        out.push(st);
+                    }
+                    3 => {
+                        let st = self.dead_store_arm(c, &defined);
+                        out.push(st);
                     }
                     1 => {
                         // override under a condition (the other path keeps the earlier value)
                         let cond = self.expr(1, 1, true);
-                        let e = self.rhs_for(p, 1);
-                        let mut body = vec![Stmt::Assign(vec![Target::Sig(p)], e)];
+                        let mut body = vec![self.store(p, 1)];
                         if self.d.chance(1, 5) {
                             let q = self.sub_place(c);
                             let c2 = self.expr(1, 2, true);
@@ -607,6 +907,24 @@ fn any_expr(e: &Expr, pred: &dyn Fn(&Expr) -> bool) -> bool {
             any_expr(a, pred) || any_expr(b, pred)
         }
         Expr::Mux(c, a, b) => any_expr(c, pred) || any_expr(a, pred) || any_expr(b, pred),
+    }
+}
+
+fn collect_refs(e: &Expr, out: &mut Vec<Place>) {
+    match e {
+        Expr::Ref(p) => out.push(*p),
+        Expr::Local(..) | Expr::Const(..) => {}
+        Expr::Concat(v) | Expr::Call(_, v) => v.iter().for_each(|x| collect_refs(x, out)),
+        Expr::Not(a) | Expr::Neg(a) | Expr::Red(_, a) | Expr::Shl(a, _) | Expr::Shr(a, _) => collect_refs(a, out),
+        Expr::Bit(_, a, b) | Expr::Arith(_, a, b) | Expr::ArithCtx(_, a, b, _) | Expr::Cmp(_, a, b) => {
+            collect_refs(a, out);
+            collect_refs(b, out);
+        }
+        Expr::Mux(c, a, b) => {
+            collect_refs(c, out);
+            collect_refs(a, out);
+            collect_refs(b, out);
+        }
     }
 }
 
@@ -777,6 +1095,8 @@ fn gen_module(
         fscope: None,
         in_inst: false,
         captured_back: false,
+        force_back: false,
+        module_index: idx,
     };
     let mut items = Vec::new();
     let mut n_inst = 0;
